@@ -9,12 +9,13 @@ StrD(c) == [t |-> "str", c |-> c]
 BoolD(b) == [t |-> "bool", bv |-> b]
 Null == [t |-> "null"]
 Pool == {NumD(N1), NumD(N2_5), StrD(Sa), StrD(Sb), StrD(S1), BoolD(TRUE), BoolD(FALSE), Null, StrD(Sa_b), NumD(N10)}
-Docs == Pool \cup {NumD(N2), StrD(Sabc), NumD(N1_0), StrD(<<116, 114, 117, 101>>), StrD(<<110, 117, 108, 108>>), StrD(<<97, 47, 98>>), StrD(<<34, 97>>),
+Docs == Pool \cup {NumD(N2), StrD(Sabc), NumD(N1_0), StrD(<<116, 114, 117, 101>>), StrD(<<110, 117, 108, 108>>), StrD(<<97, 47, 98>>), StrD(<<34, 97>>), StrD(<<8, 12, 47>>),
                    StrD(<<97, 92>>), StrD(<<7>>), StrD(<<97, 127>>), StrD(<<12, 31>>), StrD(<<34, 92, 9>>), StrD(Sab), StrD(Sxaby), StrD(Sempty), StrD(<<97, 10, 99>>), StrD(Sac), StrD(<<48, 49, 50>>), StrD(<<97, 46, 99>>), StrD(<<97, 120, 99>>)}
 Strs3 == UNION {[1..n -> {97, 98, 47}] : n \in 0..3}                      \* Level 2: every string up to 3 over a, b, /
 AllDocs == Docs \cup (IF Level = 2 THEN {StrD(c) : c \in Strs3} ELSE {})
 DocSeq == SetToSeq(AllDocs)
 Lists == UNION {[1..k -> Pool] : k \in 1..(IF Level = 1 THEN 2 ELSE 3)}
+         \cup {<<StrD(<<97, 47, 98>>), StrD(Sa)>>, <<StrD(<<8, 12, 47>>), StrD(<<97, 92>>), StrD(<<34, 97>>)>>}       \* every short escape, the solidus included (layout 7)
          \cup {<<NumD(N1), StrD(S1), BoolD(TRUE), StrD(<<116, 114, 117, 101>>)>>, <<Null, StrD(<<110, 117, 108, 108>>), NumD(N1), NumD(N1_0)>>}
 HasDup(l) == \E i, j \in DOMAIN l : i < j /\ SameScalar(l[i], l[j]) = "accept"
 Chr(c) == [t |-> "chr", c |-> c]
@@ -39,8 +40,8 @@ Binary == {[t |-> o, a |-> x, b |-> y] : o \in {"cat", "alt"}, x \in Unary, y \i
 Anchored(e) == {e, Cat([t |-> "bol"], e), Cat(e, [t |-> "eol"]), Cat([t |-> "bol"], Cat(e, [t |-> "eol"]))}
 RegexGrid == IF Level = 2 THEN UNION {Anchored(e) : e \in Unary \cup Binary} ELSE {}
 VARIABLES k, x, lay
-\* layouts: 0 one line, 1 one item per line with // comments (LF), 2 /* */ comments, 3 blanks around, 4 / 5 as 1 with CRLF / CR line ends, 6 as 1 with empty comments
-Init == \/ (k = "enum" /\ x \in Lists /\ lay \in 0..6)
+\* layouts: 0 one line, 1 one item per line with // comments (LF), 2 /* */ comments, 3 blanks around, 4 / 5 as 1 with CRLF / CR line ends, 6 as 1 with empty comments, 7 one line with every string escape spelled out (\/ \b \f \uXXXX)
+Init == \/ (k = "enum" /\ x \in Lists /\ lay \in 0..7)
         \/ (k = "regex" /\ x \in Regexes \cup RegexGrid /\ lay = 0)
 Next == UNCHANGED <<k, x, lay>>
 Spec == Init /\ [][Next]_<<k, x, lay>>
